@@ -718,6 +718,9 @@ fn replay(args: &Args) {
                     cx.judge(&cell, "accessors", accessors::<Option<f64>, _>(&ca, &lbits, None));
                     cx.compare(&cell, battery::<Option<f64>, _>(&ca), false);
                     // Polars output containers: three separate matrix cells
+                    for (cell2, r) in dyn_cells(&ca) {
+                        cx.judge(cell2, "dynamic layer", r);
+                    }
                     for (cell2, r) in polars_out(&ca, &vals) {
                         cx.rep.cells += 1;
                         match r {
@@ -783,6 +786,63 @@ fn polars_out(ca: &tevec::export::polars::prelude::Float64Chunked, vals: &Vec<f6
         let o: Float64Chunked = d.ts_vsum(2, Some(1));
         let got: Vec<u64> = o.into_iter().map(|x| x.map(bits).unwrap_or(u64::MAX)).collect();
         if got == base { Ok(()) } else { Err("ts_vsum differs from the Vec<f64> result".into()) }
+    }))));
+    out
+}
+
+/// The dynamic layer (tea-dyn, tea-rolling/src/dynamic): a named, dtype-tagged Polars Series forwards to the
+/// static kernel of its dtype (Containers.tla DynCall): same values as the static call on the extracted
+/// column, the name and the dtype kept, an error - not a panic - for a dtype without kernels, and a second
+/// operand of another dtype converted to the first one's.
+#[cfg(feature = "pl")]
+fn dyn_cells(ca: &tevec::export::polars::prelude::Float64Chunked) -> Vec<(&'static str, Result<(), String>)> {
+    use tevec::export::polars::prelude::*;
+    let flat = |r: Result<Result<(), String>, String>| match r {
+        Ok(x) => x,
+        Err(p) => Err(format!("panicked: {p}")),
+    };
+    let fb = |c: &Float64Chunked| -> Vec<u64> { c.into_iter().map(|x| x.map(bits).unwrap_or(u64::MAX)).collect() };
+    let mut out = Vec::new();
+    let ser = ca.clone().into_series().with_name("px".into());
+    macro_rules! same_f64 {
+        ($cell:expr, $dyn:ident, $stat:ident) => {
+            out.push(($cell, flat(catch(|| {
+                let d: Series = ser.$dyn(3, Some(2)).map_err(|e| format!("dynamic call failed: {e}"))?;
+                if d.name().as_str() != "px" { return Err(format!("the name became {:?}", d.name())); }
+                let dc = d.f64().map_err(|e| format!("the result is not a Float64 column: {e}"))?;
+                let st: Float64Chunked = ca.$stat(3, Some(2));
+                if fb(dc) != fb(&st) { return Err(format!("dynamic {} differs from the static {}", stringify!($dyn), stringify!($stat))); }
+                Ok(())
+            }))));
+        };
+    }
+    same_f64!("Series(f64).ts_mean", ts_mean, ts_vmean);
+    same_f64!("Series(f64).ts_ewm", ts_ewm, ts_vewm);
+    same_f64!("Series(f64).ts_std", ts_std, ts_vstd);
+    same_f64!("Series(f64).ts_skew", ts_skew, ts_vskew);
+    same_f64!("Series(f64).ts_kurt", ts_kurt, ts_vkurt);
+    same_f64!("Series(f64).ts_zscore", ts_zscore, ts_vzscore);
+    // a dtype without kernels is an error, not a panic
+    out.push(("Series(bool).ts_mean", flat(catch(|| {
+        let b = BooleanChunked::from_slice("flag".into(), &[true, false, true]).into_series();
+        match b.ts_mean(2, Some(1)) { Err(_) => Ok(()), Ok(_) => Err("a boolean column was accepted".into()) }
+    }))));
+    // two operands: same dtype, and a regressor of another dtype (converted to the first one's)
+    let opt: Vec<Option<f64>> = ca.into_iter().collect();
+    let xs: Vec<Option<f64>> = (0..opt.len()).map(|i| Some(((i * 7) % 5) as f64)).collect();
+    let xf = Float64Chunked::from_slice_options("x".into(), &xs);
+    let want: Float64Chunked = ca.ts_vregx_beta(&xf, 3, Some(2));
+    out.push(("Series(f64).ts_regx_beta(Series(f64))", flat(catch(|| {
+        let d = ser.ts_regx_beta(xf.clone().into_series(), 3, Some(2)).map_err(|e| format!("dynamic call failed: {e}"))?;
+        if d.name().as_str() != "px" { return Err(format!("the name became {:?}", d.name())); }
+        if fb(d.f64().map_err(|e| e.to_string())?) != fb(&want) { return Err("dynamic ts_regx_beta differs from the static ts_vregx_beta".into()); }
+        Ok(())
+    }))));
+    out.push(("Series(f64).ts_regx_beta(Series(i32))", flat(catch(|| {
+        let xi = Int32Chunked::from_slice_options("x".into(), &xs.iter().map(|x| x.map(|y| y as i32)).collect::<Vec<_>>()).into_series();
+        let d = ser.ts_regx_beta(xi, 3, Some(2)).map_err(|e| format!("dynamic call failed: {e}"))?;
+        if fb(d.f64().map_err(|e| e.to_string())?) != fb(&want) { return Err("with an Int32 regressor the result differs from the static call on the converted column".into()); }
+        Ok(())
     }))));
     out
 }
